@@ -24,7 +24,6 @@ NA = {
  'C18': 'quiescent well-formedness after arbitrary histories needs the containers of C13-C15 encoded; not encoded',
  'C19': 'thread-safe iterators need IterableList/FeldmanHashSet over HP encoded; not encoded',
  'C20': 'reference-model comparison of every container variant: heap-backed containers with symbolic scripts are beyond reach at useful bounds; not encoded',
- 'C21': 'free-list harness not built in the time available',
  'C23': 'flat-combining kernel: thread-local publication records, std::mutex/condvar wait strategies; not encoded',
  'C24': 'pools sit on VyukovMPMCCycleQueue (decided under C07); allocate/deallocate ownership harness not built',
 }
@@ -34,9 +33,10 @@ TEXT = {
  'C26': ('model_checking', 'one-step induction over the representation invariant of bit_reverse_counter: arbitrary valid pre-state (all counts < 2^63) x real inc()/dec(), plus all inc/dec sequences of 8 (thorough 14) operations from the empty counter'),
  'C27': ('model_checking', 'full-width symbolic hash, table size 2^k for k in 0..63 and second bucket through the real regular_hash/dummy_hash/bucket_no/parent_bucket of the HP, nogc and RCU SplitListSet for each bit-reversal algorithm'),
  'C28': ('model_checking', 'symbolic head_bits/array_bits through the real metrics::make for 1/2/4/8-byte hashes, and the cut sequence of traverse on the real splitter for two symbolic hashes: exact tiling and divergence of distinct hashes'),
- 'C22': ('model_checking', 'all schedules with at most K-1 context switches (before every atomic operation) of 2-3 threads x 1-2 critical sections on the real spin_lock / reentrant_spin_lock, by coroutine sequentialisation of the clang IR + cbmc'),
+ 'C22': ('model_checking', 'all schedules with at most K-1 context switches (before every atomic operation) of 2-3 threads x 1-2 critical sections on the real spin_lock / reentrant_spin_lock (nested lock, try_lock, try_lock(n)), pool_monitor (over a ghost lock pool: attachment, return-to-pool and mutual-exclusion oracles), injecting_monitor and lock_array (pow2 and mod policies, solver-chosen hints), by coroutine sequentialisation of the clang IR + cbmc'),
+ 'C21': ('model_checking', 'all schedules with at most K-1 context switches of 2 threads x 1-2 get/put steps (3 threads x 1 in the thorough tier) on the real FreeList, TaggedFreeList and CachedFreeList with 2 nodes; initial ownership chosen by the solver; ghost-ownership oracle (no double hand-out), final drain (no node lost)'),
  'C12': ('model_checking', 'sequential: every script of 5-6 solver-chosen API calls with solver-chosen batch/record sizes on the real WeakRingBuffer<T> (capacity 4, static and dynamic buffer) and WeakRingBuffer<void> (32 bytes) against a FIFO/record model incl. the exact refusal conditions and record bytes; concurrent: producer || consumer, every schedule with at most K-1 context switches, history linearizable to the bounded FIFO (batch) / record FIFO'),
- 'C07': ('model_checking', 'all schedules with at most K-1 context switches of 2 threads x 2 solver-chosen enqueue/dequeue operations on the real VyukovMPMCCycleQueue (capacity 2, pre-rotated and pre-filled by solver choice), history checked for linearizability to a bounded FIFO inside the harness'),
+ 'C07': ('model_checking', 'all schedules with at most K-1 context switches of 2-3 threads x 1-2 solver-chosen enqueue/dequeue operations on the real container:: and intrusive::VyukovMPMCCycleQueue (capacity 2-8, pre-rotated = wrapped around, pre-filled by solver choice; static/dynamic buffer; item counter; single-consumer front()/pop_front(); a value_cleaner that overwrites the cell), history checked for linearizability to a bounded FIFO inside the harness'),
 }
 NOTE = 'trusted: clang-14 IR as the encoding of the real code, /verif/ir2c translator (cross-checked on every run against the g++ build of the same harness on random value streams), cbmc 6.11 + SAT back end; bounds and cuts are listed in the evidence file (outside_the_claim) and in DESIGN.md 6'
 
